@@ -36,20 +36,25 @@ func newBasicAuth(cfg config.BasicAuth) (AuthScheme, error) {
 
 		go func() {
 			cleared := false
+			// clearCredentials drops all credentials: a file that is missing or
+			// cannot be read authorizes nobody
+			clearCredentials := func() {
+				if cleared {
+					return
+				}
+				if err := secrets.ReloadFromReader(&bytes.Buffer{}, bad); err != nil {
+					log.Println("[WARN] Error clearing the htpasswd credentials:", err)
+				} else {
+					log.Println("[INFO] The htpasswd credentials have been cleared")
+					cleared = true
+				}
+			}
 			ticker := time.NewTicker(cfg.Refresh).C
 			for range ticker {
 				stat, err := os.Stat(cfg.File)
 				if err != nil {
 					log.Println("[WARN] Error accessing htpasswd file:", err)
-					if !cleared {
-						err = secrets.ReloadFromReader(&bytes.Buffer{}, bad)
-						if err != nil {
-							log.Println("[WARN] Error clearing the htpasswd credentials:", err)
-						} else {
-							log.Println("[INFO] The htpasswd credentials have been cleared")
-							cleared = true
-						}
-					}
+					clearCredentials()
 					continue
 				}
 
@@ -65,6 +70,7 @@ func newBasicAuth(cfg config.BasicAuth) (AuthScheme, error) {
 						cleared = false
 					} else {
 						log.Println("[WARN] Error reloading htpasswd file:", err)
+						clearCredentials()
 					}
 				}
 			}
